@@ -9,5 +9,6 @@ CONSTANTS
   MaxMisplaced = 1000
   MaxTop = 1000
   MinKids = 0
+  Once = {}
 INVARIANTS EmitClass
 CHECK_DEADLOCK FALSE
